@@ -12,6 +12,8 @@ from vp.oracles import bracket_match, quantifier_range, unescape_plain
 from vp.doubles.fakerandom import FakeRandom
 
 import tdda.rexpy.rexpy as rx
+from vp.harness import rexpy_common
+rexpy_common.memoise_categories()
 from tdda.rexpy.rexpy import (Extractor, Examples, Size, RE_FLAGS, escape, escaped_bracket, to_vrles,
                               run_length_encode, expand_or_falsify_vrle, signature)
 
@@ -212,6 +214,27 @@ def l5e_expand(ra: int, rb: int, va: int, vA: int, vb: int, vB: int, fixed: bool
     return True
 
 
+def l5g_plusify(cat: int, m: int, d: int, fixed: bool) -> bool:
+    """
+    pre: 0 <= cat < 3 and m >= 0 and d >= -1
+    post: __return__
+    """
+    # plusify_vrle may only widen: whatever counts the fragment admitted before are admitted after
+    M = None if d < 0 else m + d
+    if M == 0:
+        M = 1
+    v = (['a', 'D', '.'][cat], m, M) + (('fixed',) if fixed else ())
+    w = rx.plusify_vrle(v)
+    if w[0] != v[0] or len(w) != len(v) or (fixed and w[3] != 'fixed'):
+        return False
+    wm, wM = w[1], w[2]
+    if wm > m:
+        return False
+    if wM is not None and (M is None or wM < M):
+        return False
+    return True
+
+
 def l5f_space(c: str) -> bool:
     """
     pre: len(c) == 1
@@ -273,6 +296,38 @@ def l7_loop(n: int, do_all: int, dae: int, msa: int, picks: List[int]) -> bool:
     return all(s in x.results.work for s in universe)
 
 
+def l7b_sample_non_matches(n: int, max_n: Optional[int], dae: int, picks: List[int], matched: List[bool]) -> bool:
+    """
+    pre: 1 <= n <= 4 and (max_n is None or 0 <= max_n <= 4) and 1 <= dae <= 4
+    pre: len(picks) <= 4 and all(0 <= p < 4 for p in picks) and len(matched) == n
+    post: __return__
+    """
+    # the default check function (check_for_failures -> sample_non_matches -> find_non_matches) must honour the
+    # check-function contract extract() relies on: max_n None => EVERY non-matching example is returned;
+    # a number => at most that many... and all of them when there are no more than that
+    strings = ['a', '1', '#', ' '][:n]
+    x = _LoopX.__new__(_LoopX)
+    x.size = Size(do_all=100, do_all_exceptions=dae, max_sampled_attempts=2)
+    x.all_examples = Examples(list(strings), [1] * n)
+    x.results = object()
+    rexes = ['^a$', '^1$', '^\\#$', '^ $'][:n]
+    rexes = [r if m else '^zzz%d$' % i for i, (r, m) in enumerate(zip(rexes, matched))]
+    fr = FakeRandom(picks)
+    saved = rx.random
+    rx.random = fr
+    try:
+        ex, freqs = x.check_for_failures(rexes, max_n)
+    finally:
+        rx.random = saved
+    fails = [s_ for s_, m in zip(strings, matched) if not m]
+    got = list(ex.strings)
+    if len(set(got)) != len(got) or not all(g in fails for g in got):
+        return False
+    if max_n is None or len(fails) <= max_n:
+        return sorted(got) == sorted(fails)
+    return len(got) >= 1
+
+
 def lift_l7(n, do_all, dae, msa, picks):
     """public API: distinct-signature examples, same Size; every example must be matched."""
     ex = ['a', '1', '#', ' '][:n]
@@ -281,6 +336,43 @@ def lift_l7(n, do_all, dae, msa, picks):
         r = rx.extract(ex, size=Size(do_all=do_all, do_all_exceptions=dae, max_sampled_attempts=msa), seed=seed)
         ok = ok and all(any(re.match(p, e, RE_FLAGS) for p in r) for e in ex)
     return ok
+
+
+# ---- L8: the whole pipeline on tiny inputs ------------------------------------------------------------------
+E2E_ALPHABET = 'aB1^- '
+
+
+def _text(idx, alphabet):
+    out = ''
+    for i in idx:
+        for k in range(len(alphabet)):
+            if i == k:          # branch: concrete characters on each path
+                out += alphabet[k]
+                break
+    return out
+
+
+def l8_pipeline(i1: List[int], i2: List[int], i3: List[int]) -> bool:
+    """
+    pre: len(i1) <= P['len'] and len(i2) <= P['len2'] and len(i3) <= (P['len2'] if P['three'] else 0)
+    pre: all(0 <= i < len(E2E_ALPHABET) for i in i1 + i2 + i3)
+    post: __return__
+    """
+    ex = [_text(i1, E2E_ALPHABET), _text(i2, E2E_ALPHABET)]
+    if P['three']:
+        ex.append(_text(i3, E2E_ALPHABET))
+    kw = dict(P.get('kw') or {})
+    r = rx.extract(list(ex), dialect=DIALECT, **kw)
+    if kw.get('strip'):
+        pass            # the expressions carry the whitespace wrapper; examples are matched as given
+    for e in ex:
+        if kw.get('remove_empties') and e.strip() == '' and kw.get('strip'):
+            continue
+        if kw.get('remove_empties') and e == '':
+            continue
+        if not any(re.match(p_, e, RE_FLAGS) for p_ in r):
+            return False
+    return True
 
 
 # ---- lifting per-character lemmas to the public API ---------------------------------------
@@ -358,6 +450,14 @@ def _obs():
                   'everything the old vrle admitted',
                   'rle and vrle of 1..2 fragments over fixed codes, all counts symbolic ints; fixed/variableLength '
                   'symbolic', timeout=240))
+    obs.append(Ob('L5g', 'l5g_plusify', 'plusify_vrle only widens a fragment: every count admitted before is admitted '
+                  'after (in particular an optional fragment stays optional)',
+                  '3 codes; m any int >= 0; M = m + d for any d >= 0, or unbounded; fixed symbolic', timeout=120))
+    obs.append(Ob('L7b', 'l7b_sample_non_matches', 'the default check function honours the contract extract() relies '
+                  'on: asked for all failures (max None) it returns every non-matching example; asked for at most N '
+                  'it returns distinct non-matching examples, all of them when there are no more than N',
+                  '<=4 examples with symbolic matched/unmatched pattern; max_n None or 0..4; do_all_exceptions 1..4; '
+                  'symbolic sample picks', timeout=300, stubs=['random -> FakeRandom (arbitrary subsets)']))
     obs.append(Ob('L5f', 'l5f_space', 'every character str.strip() removes is re-admitted by the \\s* wrapper',
                   'c: any one code point with c.isspace()', timeout=60))
     for (n, k, msa, tier, to) in ((3, 2, 1, 'quick', 240), (4, 3, 2, 'thorough', 3000)):
@@ -368,6 +468,25 @@ def _obs():
                       param={'n': n, 'k': k, 'msa': msa}, timeout=to, tier=tier, lift='lift_l7',
                       stubs=['batch_extract idealised: its expressions match exactly its working set (what L1-L6 '
                              'give)', 'random -> FakeRandom (arbitrary subsets)']))
+    e2e = [('portable', {}, 'quick'), ('perl', {'tag': True}, 'quick'),
+           ('portable', {'variableLengthFrags': True}, 'quick'), ('grep', {'strip': True}, 'quick'),
+           ('portable', {}, 'thorough'), ('perl', {'tag': True}, 'thorough'),
+           ('portable', {'variableLengthFrags': True}, 'thorough'), ('grep', {'strip': True}, 'thorough'),
+           ('portable', {'extra_letters': '-', 'variableLengthFrags': True, 'tag': True}, 'thorough'),
+           ('perl', {'strip': True, 'remove_empties': True}, 'thorough'),
+           ('portable', {'full_escape': True}, 'thorough')]
+    for d, kw, tier in e2e:
+        obs.append(Ob('L8', 'l8_pipeline', 'end to end on tiny inputs: every example given to the real extract() is '
+                      'matched by one of the expressions it returns',
+                      'every pair of strings of length <=2 and <=%d over the alphabet %r (symbolic index per '
+                      'position); dialect %s; options %r' % (1 if tier == 'quick' else 2, E2E_ALPHABET, d, kw),
+                      param={'dialect': d, 'kw': kw, 'len': 2, 'len2': 1 if tier == 'quick' else 2, 'three': False},
+                      timeout=600 if tier == 'quick' else 3000, tier=tier))
+    obs.append(Ob('L8', 'l8_pipeline', 'end to end on tiny inputs: every example given to the real extract() is '
+                  'matched by one of the expressions it returns',
+                  'every triple of strings of lengths <=2, <=1, <=1 over the alphabet %r; portable; variableLengthFrags'
+                  % E2E_ALPHABET, param={'dialect': 'portable', 'kw': {'variableLengthFrags': True}, 'len': 2,
+                                         'len2': 1, 'three': True}, timeout=7000, tier='thorough'))
     return obs
 
 
